@@ -1,9 +1,285 @@
 (* TASK T3.  Multipart uploads (property C06) over Model/Uploader.v.  The main statements are
    fixed in content; you choose and prove the uploader invariant they need. *)
 From GF Require Import Base.Bytes Base.SortedMap Model.Mem Model.Handlers Model.Uploader
-  Proofs.BytesFacts Proofs.SortedMapFacts Proofs.MemProofs.
+  Proofs.BytesFacts Proofs.SortedMapFacts Proofs.MemProofs Proofs.MemInv.
 From Coq Require Import Lia ZifyBool ZifyNat ZifyN.
 Open Scope Z_scope.
+
+(* ------------------------------------------------------------------------------------ *)
+(* the id-indexed association list (Go map id -> upload)                                *)
+(* ------------------------------------------------------------------------------------ *)
+
+Lemma up_get_set_eq id u l : up_get id (up_set id u l) = Some u.
+Proof.
+  induction l as [|[i v] l IH]; cbn [up_set up_get].
+  - rewrite N.eqb_refl. reflexivity.
+  - destruct (N.eqb i id) eqn:E; cbn [up_get].
+    + rewrite N.eqb_refl. reflexivity.
+    + rewrite E. exact IH.
+Qed.
+
+Lemma up_get_set_neq id id' u l : id' <> id -> up_get id' (up_set id u l) = up_get id' l.
+Proof.
+  intros Hne. induction l as [|[i v] l IH]; cbn [up_set up_get].
+  - destruct (N.eqb id id') eqn:E; [apply N.eqb_eq in E; congruence|reflexivity].
+  - destruct (N.eqb i id) eqn:E; cbn [up_get].
+    + apply N.eqb_eq in E. subst i.
+      destruct (N.eqb id id') eqn:E2; [apply N.eqb_eq in E2; congruence|reflexivity].
+    + destruct (N.eqb i id'); [reflexivity|exact IH].
+Qed.
+
+Lemma up_get_in id u l : up_get id l = Some u -> In (id, u) l.
+Proof.
+  induction l as [|[i v] l IH]; cbn [up_get]; [discriminate|].
+  destruct (N.eqb i id) eqn:E.
+  - intros H. inversion H; subst. apply N.eqb_eq in E. subst. left; reflexivity.
+  - intros H. right. auto.
+Qed.
+
+Lemma up_get_notin id l : ~ In id (map fst l) -> up_get id l = None.
+Proof.
+  induction l as [|[i v] l IH]; cbn [up_get map fst In]; [reflexivity|].
+  intros H. destruct (N.eqb i id) eqn:E.
+  - apply N.eqb_eq in E. exfalso. apply H. left. exact E.
+  - apply IH. intros H1. apply H. right. exact H1.
+Qed.
+
+Lemma up_get_del_eq id l : NoDup (map fst l) -> up_get id (up_del id l) = None.
+Proof.
+  induction l as [|[i v] l IH]; cbn [up_del up_get map fst]; [reflexivity|].
+  intros H. inversion H as [|x xs Hn Hd]; subst.
+  destruct (N.eqb i id) eqn:E.
+  - apply N.eqb_eq in E. subst. apply up_get_notin. exact Hn.
+  - cbn [up_get]. rewrite E. apply IH. exact Hd.
+Qed.
+
+Lemma up_get_del_neq id id' l : id' <> id -> up_get id' (up_del id l) = up_get id' l.
+Proof.
+  intros Hne. induction l as [|[i v] l IH]; cbn [up_del up_get]; [reflexivity|].
+  destruct (N.eqb i id) eqn:E.
+  - apply N.eqb_eq in E. subst.
+    destruct (N.eqb id id') eqn:E2; [apply N.eqb_eq in E2; congruence|reflexivity].
+  - cbn [up_get]. destruct (N.eqb i id'); [reflexivity|exact IH].
+Qed.
+
+Lemma in_up_set_inv i u id v l : In (i, u) (up_set id v l) -> (i, u) = (id, v) \/ In (i, u) l.
+Proof.
+  induction l as [|[j w] l IH]; cbn [up_set In].
+  - intros [H|[]]. left. symmetry. exact H.
+  - destruct (N.eqb j id) eqn:E; cbn [In].
+    + intros [H|H]; [left; symmetry; exact H|right; right; exact H].
+    + intros [H|H]; [right; left; exact H|]. destruct (IH H) as [H1|H1]; auto.
+Qed.
+
+Lemma in_fst_up_set i id v l : In i (map fst (up_set id v l)) -> i = id \/ In i (map fst l).
+Proof.
+  induction l as [|[j w] l IH]; cbn [up_set map fst In].
+  - intros [H|[]]. left. symmetry. exact H.
+  - destruct (N.eqb j id) eqn:E; cbn [map fst In].
+    + apply N.eqb_eq in E. subst j. intros [H|H]; [left; symmetry; exact H|right; right; exact H].
+    + intros [H|H]; [right; left; exact H|]. destruct (IH H) as [H1|H1]; auto.
+Qed.
+
+Lemma NoDup_up_set id v l : NoDup (map fst l) -> NoDup (map fst (up_set id v l)).
+Proof.
+  induction l as [|[j w] l IH]; cbn [up_set map fst].
+  - intros _. constructor; [intros []|constructor].
+  - intros H. inversion H as [|x xs Hn Hd]; subst.
+    destruct (N.eqb j id) eqn:E; cbn [map fst].
+    + apply N.eqb_eq in E. subst j. constructor; assumption.
+    + constructor; [|apply IH; exact Hd]. intros H1. apply in_fst_up_set in H1.
+      destruct H1 as [H1|H1].
+      * subst. rewrite N.eqb_refl in E. discriminate.
+      * contradiction.
+Qed.
+
+Lemma in_up_del_inv x id l : In x (up_del id l) -> In x l.
+Proof.
+  induction l as [|[j w] l IH]; cbn [up_del In]; [trivial|].
+  destruct (N.eqb j id); cbn [In]; [auto|]. intros [H|H]; auto.
+Qed.
+
+Lemma in_fst_up_del i id l : In i (map fst (up_del id l)) -> In i (map fst l).
+Proof.
+  induction l as [|[j w] l IH]; cbn [up_del map fst In]; [trivial|].
+  destruct (N.eqb j id); cbn [map fst In]; [auto|]. intros [H|H]; auto.
+Qed.
+
+Lemma NoDup_up_del id l : NoDup (map fst l) -> NoDup (map fst (up_del id l)).
+Proof.
+  induction l as [|[j w] l IH]; cbn [up_del map fst]; [trivial|].
+  intros H. inversion H as [|x xs Hn Hd]; subst.
+  destruct (N.eqb j id); cbn [map fst]; [exact Hd|].
+  constructor; [|apply IH; exact Hd]. intros H1. apply Hn. eapply in_fst_up_del. exact H1.
+Qed.
+
+(* ------------------------------------------------------------------------------------ *)
+(* set_nth                                                                              *)
+(* ------------------------------------------------------------------------------------ *)
+
+Lemma nth_set_nth_eq n p l : nth_error (set_nth n p l) n = Some (Some p).
+Proof.
+  revert l. induction n as [|n IH]; intros [|x l]; cbn [set_nth nth_error]; auto.
+Qed.
+
+Lemma nth_set_nth_neq n p l m :
+  m <> n -> (m < length l)%nat -> nth_error (set_nth n p l) m = nth_error l m.
+Proof.
+  revert l m. induction n as [|n IH]; intros [|x l] m Hne Hlt; cbn [length] in Hlt; try lia.
+  - destruct m; [congruence|reflexivity].
+  - destruct m; cbn [set_nth nth_error]; [reflexivity|]. apply IH; lia.
+Qed.
+
+Lemma length_set_nth n p l : length (set_nth n p l) = Nat.max (S n) (length l).
+Proof.
+  revert l. induction n as [|n IH]; intros [|x l]; cbn [set_nth length]; try rewrite IH;
+    cbn [length]; lia.
+Qed.
+
+(* ------------------------------------------------------------------------------------ *)
+(* ints_sorted                                                                          *)
+(* ------------------------------------------------------------------------------------ *)
+
+Lemma ints_sorted_cons2 a b l : ints_sorted (a :: b :: l) = (a <=? b) && ints_sorted (b :: l).
+Proof. reflexivity. Qed.
+
+Lemma ints_sorted_head a l : ints_sorted (a :: l) = true -> forall x, In x l -> a <= x.
+Proof.
+  revert a. induction l as [|b l IH]; intros a H x Hx; [destruct Hx|].
+  rewrite ints_sorted_cons2 in H. apply andb_true_iff in H. destruct H as [H1 H2].
+  destruct Hx as [Hx|Hx]; [subst; lia|]. specialize (IH b H2 x Hx). lia.
+Qed.
+
+Lemma ints_sorted_tail a l : ints_sorted (a :: l) = true -> ints_sorted l = true.
+Proof.
+  destruct l as [|b l]; [reflexivity|]. rewrite ints_sorted_cons2. intros H.
+  apply andb_true_iff in H. tauto.
+Qed.
+
+Lemma ints_sorted_app l1 l : ints_sorted (l1 ++ l) = true -> ints_sorted l = true.
+Proof.
+  induction l1 as [|a l1 IH]; cbn [app]; [auto|]. intros H. apply IH.
+  eapply ints_sorted_tail. exact H.
+Qed.
+
+Lemma ints_sorted_descent l1 a l2 c l3 : c < a -> ints_sorted (l1 ++ a :: l2 ++ c :: l3) = false.
+Proof.
+  intros Hlt. destruct (ints_sorted (l1 ++ a :: l2 ++ c :: l3)) eqn:E; [|reflexivity]. exfalso.
+  apply ints_sorted_app in E. pose proof (ints_sorted_head _ _ E c) as H.
+  assert (a <= c) by (apply H; apply in_or_app; right; left; reflexivity). lia.
+Qed.
+
+(* ------------------------------------------------------------------------------------ *)
+(* check_parts                                                                          *)
+(* ------------------------------------------------------------------------------------ *)
+
+Lemma check_parts_inl parts req e : check_parts parts req = inl e -> e = Some UInvalidPart.
+Proof.
+  revert e. induction req as [|[n et] req IH]; intros e; cbn [check_parts]; [discriminate|].
+  destruct (n <? 0); [intros H; inversion H; reflexivity|].
+  destruct (nth_error parts (Z.to_nat n)) as [[p|]|]; try (intros H; inversion H; reflexivity).
+  destruct (negb (beq (trim_quotes et) (trim_quotes (pt_etag p))));
+    [intros H; inversion H; reflexivity|].
+  destruct (check_parts parts req) as [e'|ps]; [|discriminate].
+  intros H. inversion H; subst. apply IH. reflexivity.
+Qed.
+
+Lemma check_parts_inr parts req ps : check_parts parts req = inr ps ->
+  Forall2 (fun r p => 0 <= fst r /\ nth_error parts (Z.to_nat (fst r)) = Some (Some p)) req ps.
+Proof.
+  revert ps. induction req as [|[n et] req IH]; intros ps; cbn [check_parts].
+  - intros H. inversion H. constructor.
+  - destruct (n <? 0) eqn:En; [discriminate|].
+    destruct (nth_error parts (Z.to_nat n)) as [[p|]|] eqn:Ep; try discriminate.
+    destruct (negb (beq (trim_quotes et) (trim_quotes (pt_etag p)))); [discriminate|].
+    destruct (check_parts parts req) as [e'|ps']; [discriminate|].
+    intros H. inversion H; subst.
+    constructor; [cbn [fst]; split; [lia|exact Ep]|apply IH; reflexivity].
+Qed.
+
+(* the stored etag of every accepted part matches the requested one modulo quotes *)
+Lemma check_parts_inr_etag parts req ps : check_parts parts req = inr ps ->
+  Forall2 (fun r p => trim_quotes (snd r) = trim_quotes (pt_etag p)) req ps.
+Proof.
+  revert ps. induction req as [|[n et] req IH]; intros ps; cbn [check_parts].
+  - intros H. inversion H. constructor.
+  - destruct (n <? 0) eqn:En; [discriminate|].
+    destruct (nth_error parts (Z.to_nat n)) as [[p|]|] eqn:Ep; try discriminate.
+    destruct (beq (trim_quotes et) (trim_quotes (pt_etag p))) eqn:Eb; cbn [negb]; [|discriminate].
+    destruct (check_parts parts req) as [e'|ps']; [discriminate|].
+    intros H. inversion H; subst.
+    constructor; [cbn [snd]; apply beq_eq; exact Eb|apply IH; reflexivity].
+Qed.
+
+Lemma check_parts_length parts req ps : check_parts parts req = inr ps -> length ps = length req.
+Proof.
+  intros H. apply check_parts_inr in H.
+  induction H as [|r p req ps _ _ IH]; cbn [length]; [reflexivity|]. rewrite IH. reflexivity.
+Qed.
+
+Lemma check_parts_bad parts req n et0 :
+  In (n, et0) req ->
+  (n < 0 \/ nth_error parts (Z.to_nat n) = None \/ nth_error parts (Z.to_nat n) = Some None) ->
+  check_parts parts req = inl (Some UInvalidPart).
+Proof.
+  induction req as [|[n' et'] req IH]; [intros []|]. intros [H|H] Hbad; cbn [check_parts].
+  - inversion H; subst. destruct (n <? 0) eqn:En; [reflexivity|].
+    destruct Hbad as [Hb|[Hb|Hb]]; [lia|rewrite Hb; reflexivity..].
+  - destruct (n' <? 0); [reflexivity|].
+    destruct (nth_error parts (Z.to_nat n')) as [[p|]|]; try reflexivity.
+    destruct (negb (beq (trim_quotes et') (trim_quotes (pt_etag p)))); [reflexivity|].
+    rewrite (IH H Hbad). reflexivity.
+Qed.
+
+Lemma check_parts_stale parts req n et0 p :
+  In (n, et0) req -> 0 <= n -> nth_error parts (Z.to_nat n) = Some (Some p) ->
+  trim_quotes et0 <> trim_quotes (pt_etag p) ->
+  check_parts parts req = inl (Some UInvalidPart).
+Proof.
+  induction req as [|[n' et'] req IH]; [intros []|]. intros [H|H] Hn Hp Hne; cbn [check_parts].
+  - inversion H; subst. destruct (n <? 0) eqn:En; [reflexivity|]. rewrite Hp.
+    apply beq_neq in Hne. rewrite Hne. reflexivity.
+  - destruct (n' <? 0); [reflexivity|].
+    destruct (nth_error parts (Z.to_nat n')) as [[p'|]|]; try reflexivity.
+    destruct (negb (beq (trim_quotes et') (trim_quotes (pt_etag p')))); [reflexivity|].
+    rewrite (IH H Hn Hp Hne). reflexivity.
+Qed.
+
+(* ------------------------------------------------------------------------------------ *)
+(* per-bucket invariant                                                                 *)
+(* ------------------------------------------------------------------------------------ *)
+
+Definition bu_ok (n : N) (bu : bucket_uploads) : Prop :=
+  NoDup (map fst (bu_uploads bu)) /\
+  forall i mpu, In (i, mpu) (bu_uploads bu) -> up_id mpu = i /\ (i <= n)%N /\ (0 < i)%N.
+
+Lemma bu_ok_mono n n' bu : bu_ok n bu -> (n <= n')%N -> bu_ok n' bu.
+Proof.
+  intros [H1 H2] Hle. split; [exact H1|]. intros i mpu Hi.
+  destruct (H2 _ _ Hi) as (A & B & C). repeat split; [exact A|lia|exact C].
+Qed.
+
+Lemma bu_ok_empty n idx : bu_ok n {| bu_uploads := []; bu_index := idx |}.
+Proof. split; cbn [bu_uploads map]; [constructor|intros i mpu []]. Qed.
+
+Lemma bu_ok_set n bu id mpu idx :
+  bu_ok n bu -> up_id mpu = id -> (id <= n)%N -> (0 < id)%N ->
+  bu_ok n {| bu_uploads := up_set id mpu (bu_uploads bu); bu_index := idx |}.
+Proof.
+  intros [H1 H2] Hid Hle Hpos. split; cbn [bu_uploads].
+  - apply NoDup_up_set. exact H1.
+  - intros i m Hi. apply in_up_set_inv in Hi. destruct Hi as [Hi|Hi].
+    + inversion Hi; subst. auto.
+    + apply H2. exact Hi.
+Qed.
+
+Lemma bu_ok_del n bu id idx :
+  bu_ok n bu -> bu_ok n {| bu_uploads := up_del id (bu_uploads bu); bu_index := idx |}.
+Proof.
+  intros [H1 H2]. split; cbn [bu_uploads].
+  - apply NoDup_up_del. exact H1.
+  - intros i m Hi. apply in_up_del_inv in Hi. apply H2. exact Hi.
+Qed.
 
 Section U.
 Variable md5 : list N -> list N.
@@ -19,25 +295,134 @@ Definition UInv (u : ustate) : Prop :=
     NoDup (map fst (bu_uploads bu)) /\
     forall i mpu, In (i, mpu) (bu_uploads bu) -> up_id mpu = i /\ (i <= u_next u)%N /\ (0 < i)%N.
 
-Lemma uinv_init : UInv uinit.
+Lemma uinv_bu u b bu : UInv u -> sm_get b (u_buckets u) = Some bu -> bu_ok (u_next u) bu.
+Proof. intros [_ H] Hg. apply get_in in Hg. exact (H _ _ Hg). Qed.
+
+Lemma uinv_set u b bu n' :
+  UInv u -> (u_next u <= n')%N -> bu_ok n' bu ->
+  UInv {| u_next := n'; u_buckets := sm_set b bu (u_buckets u) |}.
 Proof.
-Admitted.
+  intros [Hs Hall] Hle Hbu. split; cbn [u_buckets u_next].
+  - apply sorted_set. exact Hs.
+  - intros b0 bu0 Hin. apply in_set_inv in Hin. destruct Hin as [Hin|Hin].
+    + inversion Hin; subst. exact Hbu.
+    + apply (bu_ok_mono (u_next u)); [exact (Hall _ _ Hin)|exact Hle].
+Qed.
+
+(* what a successful lookup means *)
+Lemma get_upload_some u b k id mpu :
+  get_upload u b k id = Some mpu ->
+  exists bu, sm_get b (u_buckets u) = Some bu /\ up_get id (bu_uploads bu) = Some mpu /\ up_key mpu = k.
+Proof.
+  unfold get_upload. destruct (sm_get b (u_buckets u)) as [bu|]; [|discriminate].
+  destruct (up_get id (bu_uploads bu)) as [m|] eqn:Eu; [|discriminate].
+  destruct (beq (up_key m) k) eqn:Ek; [|discriminate].
+  intros H. inversion H; subst. exists bu. apply beq_eq in Ek. auto.
+Qed.
+
+Lemma get_upload_id u b k id mpu :
+  UInv u -> get_upload u b k id = Some mpu -> up_id mpu = id /\ (id <= u_next u)%N /\ (0 < id)%N.
+Proof.
+  intros Hinv Hg. apply get_upload_some in Hg. destruct Hg as (bu & Eb & Eu & _).
+  destruct (uinv_bu _ _ _ Hinv Eb) as [_ H]. apply H. apply up_get_in. exact Eu.
+Qed.
+
+(* lookups after replacing the uploads of one bucket *)
+Lemma get_upload_set_same u n' b bu' k id :
+  get_upload {| u_next := n'; u_buckets := sm_set b bu' (u_buckets u) |} b k id =
+  match up_get id (bu_uploads bu') with
+  | Some mpu => if beq (up_key mpu) k then Some mpu else None
+  | None => None
+  end.
+Proof. unfold get_upload. cbn [u_buckets]. rewrite get_set_eq. reflexivity. Qed.
+
+Lemma get_upload_frame u n' b bu' b' k' id' :
+  up_get id' (bu_uploads bu') =
+    match sm_get b (u_buckets u) with Some bu => up_get id' (bu_uploads bu) | None => None end ->
+  get_upload {| u_next := n'; u_buckets := sm_set b bu' (u_buckets u) |} b' k' id' =
+  get_upload u b' k' id'.
+Proof.
+  intros H. unfold get_upload. cbn [u_buckets]. destruct (beq b' b) eqn:E.
+  - apply beq_eq in E. subst b'. rewrite get_set_eq. rewrite H.
+    destruct (sm_get b (u_buckets u)); reflexivity.
+  - apply beq_neq in E. rewrite get_set_neq by exact E. reflexivity.
+Qed.
+
+(* ids are never reused: nothing is stored under an id above the counter *)
+Lemma get_upload_above u b k id : UInv u -> (u_next u < id)%N -> get_upload u b k id = None.
+Proof.
+  intros Hinv Hlt. destruct (get_upload u b k id) as [mpu|] eqn:Eg; [|reflexivity].
+  apply (get_upload_id _ _ _ _ _ Hinv) in Eg. lia.
+Qed.
+
+Lemma uinv_init : UInv uinit.
+Proof. split; cbn [uinit u_buckets]; [exact I|intros b bu []]. Qed.
 
 Lemma create_upload_inv u b k m : UInv u -> UInv (fst (create_upload u b k m)).
 Proof.
-Admitted.
+  intros Hinv. unfold create_upload. cbv zeta. cbn [fst].
+  apply uinv_set; [exact Hinv|lia|].
+  apply bu_ok_set; [|reflexivity|lia|lia].
+  destruct (sm_get b (u_buckets u)) as [bu|] eqn:Eb.
+  - apply (bu_ok_mono (u_next u)); [exact (uinv_bu _ _ _ Hinv Eb)|lia].
+  - apply bu_ok_empty.
+Qed.
+
+Lemma set_upload_inv u b mpu :
+  UInv u -> (up_id mpu <= u_next u)%N -> (0 < up_id mpu)%N -> UInv (set_upload u b mpu).
+Proof.
+  intros Hinv Hle Hpos. unfold set_upload.
+  destruct (sm_get b (u_buckets u)) as [bu|] eqn:Eb; [|exact Hinv].
+  apply uinv_set; [exact Hinv|lia|].
+  apply bu_ok_set; [exact (uinv_bu _ _ _ Hinv Eb)|reflexivity|exact Hle|exact Hpos].
+Qed.
+
+Lemma remove_upload_inv u b id : UInv u -> UInv (remove_upload u b id).
+Proof.
+  intros Hinv. unfold remove_upload.
+  destruct (sm_get b (u_buckets u)) as [bu|] eqn:Eb; [|exact Hinv].
+  destruct (up_get id (bu_uploads bu)) as [mpu|] eqn:Eu; [|exact Hinv].
+  cbv zeta. apply uinv_set; [exact Hinv|lia|].
+  apply bu_ok_del. exact (uinv_bu _ _ _ Hinv Eb).
+Qed.
 
 Lemma upload_part_inv u b k id pn body : UInv u -> UInv (fst (upload_part md5 hex u b k id pn body)).
 Proof.
-Admitted.
+  intros Hinv. unfold upload_part.
+  destruct ((pn <=? 0) || (max_part_number <? pn)); [exact Hinv|].
+  destruct (blen body <=? 0); [exact Hinv|].
+  destruct (get_upload u b k id) as [mpu|] eqn:Eg; [|exact Hinv].
+  cbv zeta. cbn [fst].
+  destruct (get_upload_id _ _ _ _ _ Hinv Eg) as (A & B & C).
+  apply set_upload_inv; [exact Hinv|cbn [up_id]; lia..].
+Qed.
 
 Lemma abort_upload_inv u b k id : UInv u -> UInv (fst (abort_upload u b k id)).
 Proof.
-Admitted.
+  intros Hinv. unfold abort_upload.
+  destruct (get_upload u b k id); cbn [fst]; [apply remove_upload_inv|]; exact Hinv.
+Qed.
+
+(* the uploader state after a complete: unchanged or that one upload removed *)
+Lemma complete_upload_ustate u s b k id req :
+  fst (fst (complete_upload md5 hex u s b k id req)) = u \/
+  fst (fst (complete_upload md5 hex u s b k id req)) = remove_upload u b id.
+Proof.
+  unfold complete_upload.
+  destruct (get_upload u b k id) as [mpu|]; [|left; reflexivity].
+  destruct (Nat.ltb (length (up_parts mpu)) (length req)); [left; reflexivity|].
+  destruct (negb (ints_sorted (map fst req))); [left; reflexivity|].
+  destruct (check_parts (up_parts mpu) req) as [[e|]|ps]; [left; reflexivity..|].
+  cbv zeta.
+  destruct (put_object s b k (flat_map pt_body ps) (up_meta mpu)) as [s' [[e|] r]];
+    [left|right]; reflexivity.
+Qed.
 
 Lemma complete_upload_inv u s b k id req : UInv u -> UInv (fst (fst (complete_upload md5 hex u s b k id req))).
 Proof.
-Admitted.
+  intros Hinv. destruct (complete_upload_ustate u s b k id req) as [H|H]; rewrite H;
+    [|apply remove_upload_inv]; exact Hinv.
+Qed.
 
 (* a new upload gets a fresh id and starts with no parts *)
 Lemma create_upload_fresh u b k m u1 id :
@@ -46,7 +431,33 @@ Lemma create_upload_fresh u b k m u1 id :
   exists mpu, get_upload u1 b k id = Some mpu /\ up_parts mpu = [] /\ up_meta mpu = m /\
   (forall b' k' id', id' <> id -> get_upload u1 b' k' id' = get_upload u b' k' id').
 Proof.
-Admitted.
+  intros Hinv Hc. unfold create_upload in Hc. cbv zeta in Hc. inversion Hc as [[Hu Hid]]. clear Hc.
+  split.
+  - intros b' k'. apply get_upload_above; [exact Hinv|lia].
+  - eexists. split; [|split; [|split]].
+    + rewrite get_upload_set_same. cbn [bu_uploads]. rewrite up_get_set_eq. cbn [up_key].
+      rewrite beq_refl. reflexivity.
+    + reflexivity.
+    + reflexivity.
+    + intros b' k' id' Hne. apply get_upload_frame. cbn [bu_uploads].
+      rewrite up_get_set_neq by exact Hne.
+      destruct (sm_get b (u_buckets u)); reflexivity.
+Qed.
+
+(* removing an existing upload *)
+Lemma remove_upload_spec u b k id mpu :
+  UInv u -> get_upload u b k id = Some mpu ->
+  get_upload (remove_upload u b id) b k id = None /\
+  (forall b' k' id', id' <> id ->
+     get_upload (remove_upload u b id) b' k' id' = get_upload u b' k' id').
+Proof.
+  intros Hinv Hg. apply get_upload_some in Hg. destruct Hg as (bu & Eb & Eu & Ek).
+  unfold remove_upload. rewrite Eb, Eu. cbv zeta. split.
+  - rewrite get_upload_set_same. cbn [bu_uploads].
+    rewrite up_get_del_eq; [reflexivity|]. exact (proj1 (uinv_bu _ _ _ Hinv Eb)).
+  - intros b' k' id' Hne. apply get_upload_frame. cbn [bu_uploads]. rewrite Eb.
+    apply up_get_del_neq. exact Hne.
+Qed.
 
 (* the latest upload of a part number wins; other parts and other uploads are untouched *)
 Lemma upload_part_latest u b k id pn body u1 et :
@@ -58,7 +469,23 @@ Lemma upload_part_latest u b k id pn body u1 et :
     up_meta mpu1 = up_meta mpu /\
     (forall b' k' id', id' <> id -> get_upload u1 b' k' id' = get_upload u b' k' id').
 Proof.
-Admitted.
+  intros Hinv. unfold upload_part.
+  destruct ((pn <=? 0) || (max_part_number <? pn)); [discriminate|].
+  destruct (blen body <=? 0); [discriminate|].
+  destruct (get_upload u b k id) as [mpu|] eqn:Eg; [|discriminate].
+  cbv zeta. intros H. inversion H as [[Hu Het]]. clear H. split; [reflexivity|].
+  destruct (get_upload_id _ _ _ _ _ Hinv Eg) as (Hid & _ & _).
+  apply get_upload_some in Eg. destruct Eg as (bu & Eb & Eu & Ek).
+  unfold set_upload. rewrite Eb. cbn [up_id]. rewrite Hid.
+  eexists _, _. split; [reflexivity|]. split; [|split; [|split; [|split]]].
+  - rewrite get_upload_set_same. cbn [bu_uploads]. rewrite up_get_set_eq. cbn [up_key].
+    rewrite Ek, beq_refl. reflexivity.
+  - cbn [up_parts]. apply nth_set_nth_eq.
+  - intros n Hne Hlt. cbn [up_parts]. apply nth_set_nth_neq; assumption.
+  - reflexivity.
+  - intros b' k' id' Hne. apply get_upload_frame. cbn [bu_uploads]. rewrite Eb.
+    apply up_get_set_neq. exact Hne.
+Qed.
 
 (* an accepted complete: the part list is ascending, every listed part is the part currently
    held under that number, the object body is exactly their concatenation in the listed order,
@@ -75,7 +502,22 @@ Lemma complete_ok u s b k id req u1 s1 et :
     get_upload u1 b k id = None /\
     (forall b' k' id', id' <> id -> get_upload u1 b' k' id' = get_upload u b' k' id').
 Proof.
-Admitted.
+  intros Hinv. unfold complete_upload.
+  destruct (get_upload u b k id) as [mpu|] eqn:Eg; [|discriminate].
+  destruct (Nat.ltb (length (up_parts mpu)) (length req)); [discriminate|].
+  destruct (ints_sorted (map fst req)) eqn:Es; cbn [negb]; [|discriminate].
+  destruct (check_parts (up_parts mpu) req) as [[e|]|ps] eqn:Ec; try discriminate.
+  cbv zeta.
+  destruct (put_object s b k (flat_map pt_body ps) (up_meta mpu)) as [s' [[e|] r]] eqn:Ep;
+    [discriminate|].
+  intros H. inversion H; subst. clear H.
+  exists mpu, ps. split; [reflexivity|]. split; [reflexivity|].
+  split; [apply check_parts_inr; exact Ec|]. split; [reflexivity|].
+  destruct (remove_upload_spec _ _ _ _ _ Hinv Eg) as [R1 R2].
+  split; [|split; [exact R1|exact R2]].
+  destruct (get_after_put _ _ _ _ _ _ _ Ep) as (v & sv & A & B & C & _).
+  exists v, sv. auto.
+Qed.
 
 (* a rejected complete (any error not coming from the backend's PutObject) leaves the stored
    objects AND the pending uploads exactly as they were *)
@@ -83,7 +525,32 @@ Lemma complete_rejected_frame u s b k id req u1 s1 e et :
   complete_upload md5 hex u s b k id req = (u1, s1, (Some e, et)) ->
   (forall be, e <> UBackend be) -> u1 = u /\ s1 = s.
 Proof.
-Admitted.
+  unfold complete_upload.
+  destruct (get_upload u b k id) as [mpu|] eqn:Eg;
+    [|intros H _; inversion H; subst; auto].
+  destruct (Nat.ltb (length (up_parts mpu)) (length req)); [intros H _; inversion H; subst; auto|].
+  destruct (negb (ints_sorted (map fst req))); [intros H _; inversion H; subst; auto|].
+  destruct (check_parts (up_parts mpu) req) as [[e'|]|ps] eqn:Ec;
+    [intros H _; inversion H; subst; auto..|].
+  cbv zeta.
+  destruct (put_object s b k (flat_map pt_body ps) (up_meta mpu)) as [s' [[e'|] r]] eqn:Ep.
+  - intros H Hne. inversion H; subst. exfalso. exact (Hne e' eq_refl).
+  - discriminate.
+Qed.
+
+(* shape of every rejection that happens before the backend is called *)
+Lemma complete_rejects_check u s b k id req mpu :
+  get_upload u b k id = Some mpu ->
+  check_parts (up_parts mpu) req = inl (Some UInvalidPart) ->
+  exists e, snd (complete_upload md5 hex u s b k id req) = (Some e, []) /\ (forall be, e <> UBackend be).
+Proof.
+  intros Hg Hc. unfold complete_upload. rewrite Hg.
+  destruct (Nat.ltb (length (up_parts mpu)) (length req)).
+  { exists UInvalidPart. split; [reflexivity|discriminate]. }
+  destruct (negb (ints_sorted (map fst req))).
+  { exists UInvalidPartOrder. split; [reflexivity|discriminate]. }
+  rewrite Hc. exists UInvalidPart. split; [reflexivity|discriminate].
+Qed.
 
 (* what is rejected: a part never uploaded, a stale ETag, a descent in the list *)
 Lemma complete_rejects_unknown_part u s b k id req mpu n et0 :
@@ -91,20 +558,31 @@ Lemma complete_rejects_unknown_part u s b k id req mpu n et0 :
   (n < 0 \/ nth_error (up_parts mpu) (Z.to_nat n) = None \/ nth_error (up_parts mpu) (Z.to_nat n) = Some None) ->
   exists e, snd (complete_upload md5 hex u s b k id req) = (Some e, []) /\ (forall be, e <> UBackend be).
 Proof.
-Admitted.
+  intros Hg Hin Hbad. apply (complete_rejects_check _ _ _ _ _ _ _ Hg).
+  eapply check_parts_bad; eassumption.
+Qed.
 
 Lemma complete_rejects_stale_etag u s b k id req mpu n et0 p :
   get_upload u b k id = Some mpu -> In (n, et0) req -> 0 <= n ->
   nth_error (up_parts mpu) (Z.to_nat n) = Some (Some p) -> trim_quotes et0 <> trim_quotes (pt_etag p) ->
   exists e, snd (complete_upload md5 hex u s b k id req) = (Some e, []) /\ (forall be, e <> UBackend be).
 Proof.
-Admitted.
+  intros Hg Hin Hn Hp Hne. apply (complete_rejects_check _ _ _ _ _ _ _ Hg).
+  eapply check_parts_stale; eassumption.
+Qed.
 
 Lemma complete_rejects_descent u s b k id req l1 a l2 c l3 :
   map fst req = l1 ++ a :: l2 ++ c :: l3 -> c < a ->
   exists e, snd (complete_upload md5 hex u s b k id req) = (Some e, []) /\ (forall be, e <> UBackend be).
 Proof.
-Admitted.
+  intros Hreq Hlt. unfold complete_upload.
+  destruct (get_upload u b k id) as [mpu|].
+  2:{ exists UNoSuchUpload. split; [reflexivity|discriminate]. }
+  destruct (Nat.ltb (length (up_parts mpu)) (length req)).
+  { exists UInvalidPart. split; [reflexivity|discriminate]. }
+  rewrite Hreq, (ints_sorted_descent _ _ _ _ _ Hlt). cbn [negb].
+  exists UInvalidPartOrder. split; [reflexivity|discriminate].
+Qed.
 
 (* abort discards exactly that upload and does not touch anything else (the backend state is
    not even an argument of abort_upload) *)
@@ -113,7 +591,11 @@ Lemma abort_frame u b k id u1 :
   get_upload u1 b k id = None /\
   (forall b' k' id', id' <> id -> get_upload u1 b' k' id' = get_upload u b' k' id').
 Proof.
-Admitted.
+  intros Hinv. unfold abort_upload.
+  destruct (get_upload u b k id) as [mpu|] eqn:Eg; [|discriminate].
+  intros H. inversion H; subst. clear H.
+  exact (remove_upload_spec _ _ _ _ _ Hinv Eg).
+Qed.
 
 End U.
 
